@@ -547,7 +547,16 @@ def judge(histories_events, verdict, workdir=None, keep=None):
 _ACC = re.compile(r'^"ACCEPT\|(\d+)"$')
 
 
-def runtrace(histories_events, max_files=5):
+RUNTRACE_MAXIDS = (4, 9)     # embeddings at the top of the ID range for which a RunTraceMax<k>.cfg exists
+
+
+def runtrace_group(evs):
+    """which configuration of RunTrace a history needs: 0 = ordinary IDs, k = abstract MaxId k (high embedding)"""
+    init = evs[0]
+    return 0 if init.get("base", 0) == 0 else init.get("maxid")
+
+
+def runtrace(histories_events, max_files=5, maxid=0):
     """Implementation-level validation (spec/RunTrace.tla): returns (accepted end-event positions, all end-event
     positions, TLC result) for the eligible histories given as a list of event lists.  Positions are (history index,
     local event index)."""
@@ -562,7 +571,8 @@ def runtrace(histories_events, max_files=5):
                 n += 1
                 if e.get("ev") == "end":
                     index.append((n, hi, li))
-    r = run_tlc("RunTrace.tla", "RunTrace.cfg", workers=1, env={"TRACE": path}, coverage=False, xmx="6g", timeout=1800)
+    r = run_tlc("RunTrace.tla", "RunTraceMax%d.cfg" % maxid if maxid else "RunTrace.cfg", workers=1, env={"TRACE": path},
+                coverage=False, xmx="6g", timeout=1800)
     rm_scratch(d)
     if r.error or r.violated:
         raise ToolError("RunTrace failed to run: %s %s\n%s" % (r.violated, (r.error or "")[:500], r.out[-1500:]))
@@ -579,7 +589,7 @@ def runtrace(histories_events, max_files=5):
 def runtrace_eligible(evs):
     init = evs[0]
     starts = [e for e in evs if e.get("ev") == "start"]
-    return (init.get("ev") == "init" and init.get("base", 0) == 0 and not init.get("opaque")
+    return (init.get("ev") == "init" and (init.get("base", 0) == 0 or init.get("maxid") in RUNTRACE_MAXIDS) and not init.get("opaque")
             and all(e.get("cc", "ok") != "noscope" for e in starts)
             and 1 <= len(init.get("files", [])) <= 5 and sum(len(f) for f in init.get("files", [])) <= 60
             and "present" in init and any(len(f) for f in init["files"]) is not None
